@@ -241,7 +241,11 @@ def some(x):
 
 
 class Resolver:
-    def __init__(self, bundle, args, transform=None, formatter=b'none', locale=b'en', functions=bundle_run_function):
+    def __init__(self, bundle, args, transform=None, formatter=b'none', locale=b'en', functions=bundle_run_function,
+                 structural_cycles=False):
+        # the property: a cycle = a reference to an entry (message value / attribute, term value / attribute) that is
+        # being expanded.  structural_cycles=True is the reading of scope.rs (a pattern EQUAL to one being expanded).
+        self.structural_cycles = structural_cycles
         self.b = bundle
         self.args = args                  # dict or None : the caller's arguments
         self.transform = transform
@@ -282,8 +286,8 @@ class Resolver:
         self.errors.append(e)
 
     # --- the rules
-    def format(self, pattern):
-        return self.pattern(pattern, (pattern,), None)
+    def format(self, pattern, name):
+        return self.pattern(pattern, ((name, pattern),), None)
 
     def pattern(self, p, T, env):
         out = []
@@ -338,13 +342,13 @@ class Resolver:
         return pos, sorted(named.items())
 
     def expand(self, ref, target, T, env):
-        """target: ('found', pattern) | ('unknown',) | ('novalue', id)"""
+        """target: ('found', pattern, name) | ('unknown',) | ('novalue', id)"""
         if target[0] == 'found':
-            q = target[1]
-            if any(q == t for t in T):
+            q, name = target[1], target[2]
+            if (any(q == t[1] for t in T) if self.structural_cycles else any(name == t[0] for t in T)):
                 self.error(b'Cyclic')
                 return b'{' + source_form(ref) + b'}'
-            return self.pattern(q, (q,) + T, env)
+            return self.pattern(q, ((name, q),) + T, env)
         if target[0] == 'novalue':
             self.error([b'NoValue', target[1]])
         else:
@@ -357,10 +361,10 @@ class Resolver:
             return ('unknown',)
         if attr is not None:
             q = attribute(entry[2], attr)
-            return ('found', q) if q is not None else ('unknown',)
+            return ('found', q, (entry[0], id_, attr)) if q is not None else ('unknown',)
         if entry[1] is None:
             return ('novalue', id_)
-        return ('found', entry[1])
+        return ('found', entry[1], (entry[0], id_, None))
 
     def function_call(self, i, T, env):
         """-> value or None when the function is unknown (reported, after its arguments)"""
